@@ -239,3 +239,210 @@ Proof.
   break H. apply of_plain_inv in H. destruct H as (i & M & ->).
   exists (map TNum l), None. split; [reflexivity|]. now apply plain_entry.
 Qed.
+
+(* ------------------------------------------------------------------ *)
+(* sizes: what the assembler emits for a mnemonic has the size the generated
+   table gives that mnemonic *)
+
+Ltac tsize :=
+  match goal with
+  | |- table_size ?n = Some ?l =>
+    let v := eval vm_compute in (table_size n) in
+    change (table_size n) with v; f_equal;
+    rewrite ?len_cons, ?len_app; len_solve
+  end.
+
+Ltac size_case := inv_ops; simpl instr_name; tsize.
+
+Lemma plain_size i bs : encode_plain i = Some bs -> table_size (instr_name i) = Some (len bs).
+Proof.
+  intros H.
+  destruct i; simpl in H; try discriminate; try solve [size_case].
+  - (* IConv *)
+    unfold conv_opcode, in_range in H.
+    destruct (_ && _) eqn:E in H; [|discriminate].
+    assert (1 <= src <= 4 /\ 1 <= dst <= 4 /\ src <> dst) as (? & ? & ?) by lia.
+    assert (src = 1 \/ src = 2 \/ src = 3 \/ src = 4) as Hs by lia.
+    assert (dst = 1 \/ dst = 2 \/ dst = 3 \/ dst = 4) as Hd by lia.
+    destruct Hs as [-> | [-> | [-> | ->]]]; destruct Hd as [-> | [-> | [-> | ->]]];
+      try lia; vm_compute in H; size_case.
+  - (* IDeref *)
+    unfold deref_opcode, in_range in H.
+    destruct (ty =? 1) eqn:E1.
+    + assert (ty = 1) by lia; subst. size_case.
+    + destruct (_ && _) eqn:E in H; [|discriminate].
+      assert (ty = 2 \/ ty = 3 \/ ty = 4 \/ ty = 5) as Ht by lia.
+      destruct Ht as [-> | [-> | [-> | ->]]]; vm_compute in H; size_case.
+  - (* IPushC *)
+    unfold in_range in H. destruct (_ && _) eqn:E in H; [|discriminate].
+    assert (ty = 1 \/ ty = 2 \/ ty = 3 \/ ty = 4) as Ht by lia.
+    assert (c = -2 \/ c = -1 \/ c = 0 \/ c = 1 \/ c = 2) as Hc by lia.
+    destruct Ht as [-> | [-> | [-> | ->]]]; destruct Hc as [-> | [-> | [-> | [-> | ->]]]];
+      vm_compute in H; size_case.
+  - (* IRead *)
+    unfold ty_slot, in_range in H.
+    destruct (_ && _) eqn:E in H.
+    + assert (ty = 1 \/ ty = 2 \/ ty = 3 \/ ty = 4 \/ ty = 5) as Ht by lia.
+      destruct local_; destruct Ht as [-> | [-> | [-> | [-> | ->]]]];
+        simpl Z.add in H; simpl Z.sub in H; size_case.
+    + destruct (ty =? 7) eqn:E7; [|discriminate]. assert (ty = 7) by lia; subst.
+      destruct local_; simpl Z.add in H; size_case.
+  - (* IReadidx *)
+    unfold ty_slot, in_range in H.
+    destruct (_ && _) eqn:E in H.
+    + assert (ty = 1 \/ ty = 2 \/ ty = 3 \/ ty = 4 \/ ty = 5) as Ht by lia.
+      destruct local_; destruct Ht as [-> | [-> | [-> | [-> | ->]]]];
+        simpl Z.add in H; simpl Z.sub in H; size_case.
+    + destruct (ty =? 7) eqn:E7; [|discriminate]. assert (ty = 7) by lia; subst.
+      destruct local_; simpl Z.add in H; size_case.
+  - destruct local_; size_case.
+  - destruct local_; size_case.
+Qed.
+
+(* shape of what asm_one produces *)
+Lemma asm_one_shape lits lab op args w :
+  asm_one lits lab op args = AOk w ->
+  (exists vals i, mk_plain op vals = Some i /\ w = WI i) \/
+  (op = L "push!" /\ exists b, w = WPushS b) \/
+  (op = L "push#" /\ exists b, w = WPushD b).
+Proof.
+  intros H. unfold asm_one in H.
+  destruct (is_label_op op) eqn:E1.
+  { break H; subst; apply of_plain_inv in H; destruct H as (i & M & ->); left; eauto. }
+  destruct (str_eqb op (L "errhand")) eqn:E2.
+  { break H; subst; apply of_plain_inv in H; destruct H as (i & M & ->); left; eauto. }
+  destruct (str_eqb op (L "io")) eqn:E3.
+  { break H; subst; apply of_plain_inv in H; destruct H as (i & M & ->); left; eauto. }
+  destruct (str_eqb op (L "push$")) eqn:E4.
+  { break H; subst; apply of_plain_inv in H; destruct H as (i & M & ->); left; eauto. }
+  destruct (str_eqb op (L "push!")) eqn:E5.
+  { apply str_eqb_eq in E5. break H; subst. injection H as <-. right; left; eauto. }
+  destruct (str_eqb op (L "push#")) eqn:E6.
+  { apply str_eqb_eq in E6. break H; subst. injection H as <-. right; right; eauto. }
+  destruct (str_eqb op (L "push%") || str_eqb op (L "push&")) eqn:E7.
+  { break H; subst; apply of_plain_inv in H; destruct H as (i & M & ->); left; eauto. }
+  break H. apply of_plain_inv in H. destruct H as (i & M & ->). left; eauto.
+Qed.
+
+Lemma asm_one_size lits lab op args w bs :
+  asm_one lits lab op args = AOk w -> encode_w w = Some bs -> table_size op = Some (len bs).
+Proof.
+  intros H E. apply asm_one_shape in H.
+  destruct H as [(vals & i & M & ->) | [(-> & b & ->) | (-> & b & ->)]].
+  - simpl in E. rewrite <- (mk_plain_name _ _ _ M). now apply plain_size.
+  - simpl in E. size_case.
+  - simpl in E. size_case.
+Qed.
+
+(* the operand index of push$ stays below the literal count *)
+Lemma asm_one_small lits lab op args w :
+  asm_one lits lab op args = AOk w -> len lits <= 32768 -> pushstr_small w.
+Proof.
+  intros H B. unfold asm_one in H.
+  assert (forall vals i, mk_plain op vals = Some i -> str_eqb op (L "push$") = false ->
+                         pushstr_small (WI i)) as NP.
+  { intros vals i M E. apply str_eqb_false in E. pose proof (mk_plain_name _ _ _ M) as N.
+    destruct i; simpl; auto. exfalso. apply E. rewrite <- N. reflexivity. }
+  destruct (is_label_op op) eqn:E1.
+  { apply is_label_op_names in E1.
+    break H; subst; apply of_plain_inv in H; destruct H as (i & M & ->);
+      apply (NP _ _ M); destruct E1 as [-> | [-> | ->]]; reflexivity. }
+  destruct (str_eqb op (L "errhand")) eqn:E2.
+  { apply str_eqb_eq in E2.
+    break H; subst; apply of_plain_inv in H; destruct H as (i & M & ->); apply (NP _ _ M); reflexivity. }
+  destruct (str_eqb op (L "io")) eqn:E3.
+  { apply str_eqb_eq in E3.
+    break H; subst; apply of_plain_inv in H; destruct H as (i & M & ->); apply (NP _ _ M); reflexivity. }
+  destruct (str_eqb op (L "push$")) eqn:E4.
+  { apply str_eqb_eq in E4. break H; subst. apply of_plain_inv in H. destruct H as (i & M & ->).
+    pose proof (mk_plain_name _ _ _ M) as N. pose proof (mk_plain_operands _ _ _ M) as O.
+    pose proof (dis_args_pushstr i z (pushstr_of_name _ N) O) as ->.
+    match goal with X : lit_index _ _ = Some _ |- _ => apply lit_index_spec in X; simpl; lia end. }
+  destruct (str_eqb op (L "push!")) eqn:E5.
+  { break H; subst. injection H as <-. exact I. }
+  destruct (str_eqb op (L "push#")) eqn:E6.
+  { break H; subst. injection H as <-. exact I. }
+  destruct (str_eqb op (L "push%") || str_eqb op (L "push&")) eqn:E7.
+  { break H; subst; apply of_plain_inv in H; destruct H as (i & M & ->); now apply (NP _ _ M). }
+  break H. apply of_plain_inv in H. destruct H as (i & M & ->). now apply (NP _ _ M).
+Qed.
+
+(* ------------------------------------------------------------------ *)
+(* label tables *)
+
+Lemma abind_inv {A B} (x : ares A) (f : A -> ares B) b :
+  abind x f = AOk b -> exists a, x = AOk a /\ f a = AOk b.
+Proof. destruct x; simpl; try discriminate. eauto. Qed.
+
+Lemma enc_size_inv w n : enc_size w = AOk n -> exists bs, encode_w w = Some bs /\ n = len bs.
+Proof. unfold enc_size. destruct (encode_w w); [|discriminate]. intros [= <-]. eauto. Qed.
+
+Lemma label_pass_spec lits : forall l off acc labels e,
+  label_pass lits l off acc = AOk (labels, e) -> spec_labels l off acc = Some labels.
+Proof.
+  induction l as [|it r IH]; intros off acc labels e H.
+  - simpl in H. injection H as <- <-. reflexivity.
+  - destruct it as [n | | op args]; simpl in H |- *.
+    + eauto.
+    + eauto.
+    + apply abind_inv in H. destruct H as (w & Hw & H).
+      apply abind_inv in H. destruct H as (n & Hn & H).
+      apply enc_size_inv in Hn. destruct Hn as (bs & Hb & ->).
+      rewrite (asm_one_size _ _ _ _ _ _ Hw Hb). eauto.
+Qed.
+
+(* ------------------------------------------------------------------ *)
+(* the whole code section *)
+
+Lemma emit_dis lits labels : forall l ws code off fuel,
+  emit_pass lits (fun n => assoc n labels) l = AOk ws ->
+  encode_code ws = Some code -> len lits <= 32768 -> (length ws <= fuel)%nat ->
+  exists dl, spec_lines lits labels l off = Some dl /\ dis_from fuel lits off code = DisOk dl.
+Proof.
+  induction l as [|it r IH]; intros ws code off fuel H E B F.
+  - simpl in H. injection H as <-. simpl in E. injection E as <-.
+    exists []. split; [reflexivity|]. destruct fuel; reflexivity.
+  - destruct it as [n | | op args].
+    + simpl in H |- *. eauto.
+    + simpl in H |- *. eauto.
+    + cbn [emit_pass] in H. apply abind_inv in H. destruct H as (w & Hw & H).
+      apply abind_inv in H. destruct H as (ws' & Hr & [= <-]).
+      simpl in E. apply cat2_inv in E. destruct E as (x & y & Hx & Hy & ->).
+      pose proof (asm_one_small _ _ _ _ _ Hw B) as SM.
+      pose proof (asm_one_size _ _ _ _ _ _ Hw Hx) as TS.
+      destruct (asm_one_spec _ _ _ _ _ off Hw) as (toks & c & SA & DE).
+      pose proof (encode_w_nonempty _ _ Hx SM) as NE.
+      destruct fuel as [|f]; [simpl in F; lia|].
+      destruct (IH ws' y (off + len x) f Hr Hy B) as (dl & SL & DF); [simpl in F; lia|].
+      exists (mkDline off op toks c :: dl). split.
+      * cbn [spec_lines]. rewrite TS, SA, SL. reflexivity.
+      * destruct x as [|b0 x']; [unfold len in NE; simpl in NE; lia|].
+        change ((b0 :: x') ++ y) with (b0 :: (x' ++ y)).
+        cbn [dis_from].
+        change (b0 :: x' ++ y) with ((b0 :: x') ++ y).
+        rewrite (decode_encode_w _ _ y Hx SM), DE, skipn_len_app, DF. reflexivity.
+Qed.
+
+Theorem disasm_matches_listing lits l code labels :
+  assemble lits l = AOk (code, labels) -> len lits <= 32768 ->
+  exists dl, expected_dis lits l = Some dl /\ dis_items lits code = DisOk dl /\
+             disasm lits code = DisOk (render_dis dl).
+Proof.
+  unfold assemble, assemble_w. intros H B.
+  apply abind_inv in H. destruct H as ((ws & labels') & H & H2).
+  apply abind_inv in H. destruct H as ((lt & e) & HL & H).
+  apply abind_inv in H. destruct H as (ws0 & HE & [= -> ->]).
+  destruct (encode_code ws) as [bs|] eqn:EC; [|discriminate]. injection H2 as -> ->.
+  assert (Forall pushstr_small ws) as SM.
+  { clear -HE B. revert ws HE. generalize (fun n : str => assoc n labels) as lab.
+    induction l as [|it r IH]; intros lab ws H.
+    - simpl in H. injection H as <-. constructor.
+    - destruct it as [n | | op args]; simpl in H; eauto.
+      apply abind_inv in H. destruct H as (w & Hw & H).
+      apply abind_inv in H. destruct H as (ws' & Hr & [= <-]).
+      constructor; [eapply asm_one_small; eauto | eauto]. }
+  destruct (emit_dis lits labels l ws code 0 (length code) HE EC B) as (dl & SL & DF).
+  { now apply encode_code_length. }
+  exists dl. unfold expected_dis, disasm, dis_items.
+  rewrite (label_pass_spec _ _ _ _ _ _ HL), SL, DF. auto.
+Qed.
